@@ -104,9 +104,11 @@ fn main() {
             }
         }
         // library types outside the model: direct oracles (C01, C06, C07)
-        "extras" => {
+        // `extrasbulk`: only the round trips and the bulk-vs-item-wise comparisons (C04), no forked probes
+        "extras" | "extrasbulk" => {
             let mut stats: BTreeMap<String, u64> = BTreeMap::new();
             let mut r = Rng::new(name_seed(a.seed, "extras", 1));
+            extras::set_light(a.cmd == "extrasbulk");
             for l in extras::cases(&mut r, a.cases) {
                 if let Some(k) = l.strip_prefix("#stat ") {
                     let (k, v) = k.rsplit_once(' ').unwrap();
@@ -189,8 +191,13 @@ fn main() {
             let via_plugin = a.cmd == "plugin";
             let pairs = if via_plugin { zoo_gen::plugin_pairs() } else { zoo_gen::abi_pairs() };
             if via_plugin {
-                for l in isolated(|| abicall::plugin_probes(a.seed).join("\n")).split('\n') {
-                    if !l.is_empty() {
+                let rep = isolated_t(300, || abicall::plugin_probes(a.seed).join("\n"));
+                if rep.starts_with("(abort") {
+                    // the probes did not come back: a creation that never returns (or a crash) inside them
+                    writeln!(out, "!C16 plugin-probes-did-not-finish got={}", rep.replace(' ', "_")).unwrap();
+                }
+                for l in rep.split('\n') {
+                    if !l.is_empty() && !l.starts_with("(abort") {
                         writeln!(out, "{}", l).unwrap();
                     }
                 }
@@ -440,25 +447,31 @@ fn main() {
                 }
                 for &v in &e.versions {
                     let mut r = Rng::new(name_seed(a.seed, &e.name, 1000 + v as u64));
+                    // all mutated inputs of one type and version go through one forked child (each on its own
+                    // only if that child dies)
+                    let mut inputs: Vec<Vec<u8>> = Vec::new();
                     for i in 0..a.cases {
                         let (_wire, _canon, res) = (e.gen_enc)(&mut r, if i % 2 == 0 { 3 } else { a.size }, v);
                         let base = match res {
                             Ok(b) => b,
                             Err(_) => vec![],
                         };
-                        for m in mutate::mutations(&mut r, &base, 4) {
-                            out.flush().unwrap();
-                            let reply = isolated(|| (e.dec)(v, &m));
-                            let class = reply.split(|c| c == ' ' || c == ')').next().unwrap_or("").to_string()
-                                + if reply.contains("invalid-") { "+invalid" } else { "" };
-                            *stats.entry(format!("mal{}", class)).or_default() += 1;
-                            writeln!(out, "(dec @{} {} {})\t{}", e.name, v, hex(&m), reply).unwrap();
-                            if (reply.starts_with("(panic") && !reply.starts_with("(panic oom")) || reply.starts_with("(abort 11") || reply.starts_with("(abort 7") {
-                                writeln!(out, "!C06 panic type={} ver={} bytes={} got={}", e.name, v, hex(&m), reply).unwrap();
-                            }
-                            if reply.contains("invalid-") {
-                                writeln!(out, "!C06 invalid-value type={} ver={} bytes={} got={}", e.name, v, hex(&m), reply).unwrap();
-                            }
+                        inputs.extend(mutate::mutations(&mut r, &base, 4));
+                    }
+                    out.flush().unwrap();
+                    for (m, reply) in inputs.iter().zip(isolated_batch(&inputs, |m| (e.dec)(v, m))) {
+                        let class = reply.split(|c| c == ' ' || c == ')').next().unwrap_or("").to_string()
+                            + if reply.contains("invalid-") { "+invalid" } else { "" };
+                        *stats.entry(format!("mal{}", class)).or_default() += 1;
+                        writeln!(out, "(dec @{} {} {})\t{}", e.name, v, hex(m), reply).unwrap();
+                        if reply.starts_with("(abort 14") {
+                            writeln!(out, "!C06 hang type={} ver={} bytes={} got=no-result-after-60s", e.name, v, hex(m)).unwrap();
+                        }
+                        if (reply.starts_with("(panic") && !reply.starts_with("(panic oom")) || reply.starts_with("(abort 11") || reply.starts_with("(abort 7") {
+                            writeln!(out, "!C06 panic type={} ver={} bytes={} got={}", e.name, v, hex(m), reply).unwrap();
+                        }
+                        if reply.contains("invalid-") {
+                            writeln!(out, "!C06 invalid-value type={} ver={} bytes={} got={}", e.name, v, hex(m), reply).unwrap();
                         }
                     }
                 }
@@ -601,7 +614,7 @@ fn main() {
                 let ver = if i % 4 == 0 { 1 } else { 2 };
                 let base = ser_schema(&s, ver);
                 for m in mutate::mutations(&mut r, &base, 3) {
-                    let reply = isolated(|| match de_schema(&m, ver as u16) {
+                    let reply = isolated_t(60, || match de_schema(&m, ver as u16) {
                         Ok((back, rest)) => format!("(ok {} {})", hex(&ser_schema(&back, 2)), rest),
                         Err(e) => e,
                     });
@@ -622,16 +635,12 @@ fn main() {
             let sel = selected(&reg, &a);
             let mut r = Rng::new(name_seed(a.seed, "xtype", 0));
             let n = sel.len();
-            let npairs = a.cases * 150;
-            for k in 0..npairs {
-                let i = r.below(n as u64) as usize;
-                // bias towards neighbours in the registry (similar types) and towards the same type
-                let j = match k % 4 { 0 => i, 1 => (i + 1 + r.below(4) as usize) % n, _ => r.below(n as u64) as usize };
+            let mut do_pair = |out: &mut dyn Write, r: &mut Rng, stats: &mut BTreeMap<String, u64>, i: usize, j: usize| {
                 let (et, eu) = (sel[i], sel[j]);
                 let v = et.current();
                 let memver = eu.current().max(v);
-                let (_wire, canon, res) = (et.gen_save)(&mut r, a.size.min(6), v, Kind::Plain);
-                let bytes = match res { Ok(b) => b, Err(_) => continue };
+                let (_wire, canon, res) = (et.gen_save)(r, a.size.min(6), v, Kind::Plain);
+                let bytes = match res { Ok(b) => b, Err(_) => return };
                 let reply = (eu.load)(Kind::Plain, memver, PASSWORD, &bytes);
                 let expected = (eu.schema_bytes)(v, 2);
                 writeln!(out, "(loadfile plain @{} {} {} {})\t{}", eu.name, memver, hex(&bytes), hex(&expected), reply).unwrap();
@@ -644,6 +653,41 @@ fn main() {
                 if i == j && !et.tags.contains(&"ignore") && reply != format!("(ok {} 0)", canon) {
                     writeln!(out, "!C05 same-type-rejected type={} value={} got={}", et.name, canon, reply).unwrap();
                 }
+            };
+            // (a) every ordered pair of different types that the real gate lets through (`diff_schema` of the two
+            //     real schemas at the file's version reports nothing): these are the pairs where a misread is
+            //     possible at all, so none of them is left to sampling
+            let maxv = sel.iter().map(|e| e.current()).max().unwrap_or(0);
+            let schemas: Vec<Vec<Option<savefile::prelude::Schema>>> = sel
+                .iter()
+                .map(|e| (0..=maxv).map(|v| schemagen::de_schema(&(e.schema_bytes)(v, 2), 2).ok().map(|x| x.0)).collect())
+                .collect();
+            let mut twins = 0u64;
+            for i in 0..n {
+                let v = sel[i].current() as usize;
+                let Some(si) = &schemas[i][v] else { continue };
+                for j in 0..n {
+                    if i == j {
+                        continue;
+                    }
+                    let Some(sj) = &schemas[j][v] else { continue };
+                    let same = std::panic::catch_unwind(std::panic::AssertUnwindSafe(|| savefile::diff_schema(si, sj, String::new(), false).is_none())).unwrap_or(false);
+                    if same {
+                        twins += 1;
+                        if twins <= 4000 {
+                            do_pair(&mut out, &mut r, &mut stats, i, j);
+                        }
+                    }
+                }
+            }
+            stats.insert("xtype-gate-accepted-pairs".into(), twins);
+            // (b) sampled pairs
+            let npairs = a.cases * 150;
+            for k in 0..npairs {
+                let i = r.below(n as u64) as usize;
+                // bias towards neighbours in the registry (similar types) and towards the same type
+                let j = match k % 4 { 0 => i, 1 => (i + 1 + r.below(4) as usize) % n, _ => r.below(n as u64) as usize };
+                do_pair(&mut out, &mut r, &mut stats, i, j);
             }
             for (k, v) in stats {
                 writeln!(out, "#stat {} {}", k, v).unwrap();
